@@ -785,7 +785,11 @@ func vsS13() {
 	if vParam("case") == 6 {
 		extra = append(extra, PopCompletedMode())
 	}
-	e := vNewContainer(vManual, -1, extra...)
+	q := -1
+	if vParam("case") == 7 {
+		q = 0 // every request to the heap manager finds its queue full
+	}
+	e := vNewContainer(vManual, q, extra...)
 	e.vTicks()
 	mk := func(d int) *vMark {
 		m := vNewMark(0)
@@ -857,6 +861,13 @@ func vsS13() {
 		a.SetPriority(9)
 		e.cycle()
 		vAssert(last() == 0x231, "S13.priority-change-of-a-finished-bar-that-is-still-displayed")
+	case 7:
+		// two priority changes of one bar in a row: the later one wins (no update lost or reordered)
+		b.SetPriority(7)
+		b.SetPriority(-1)
+		e.cycle()
+		e.cycle()
+		vAssert(last() == 0x213, "S13.last-of-two-priority-changes-wins")
 	case 6:
 		// pop-completed mode: two bars finish between the same two frames; they rise above the running bar
 		// in the order the container saw them finish (it collects the rows from the bottom up)
